@@ -7,6 +7,7 @@
    MC_CRC16 checks that they coincide on all 2^16 x 2^8 arguments; the fold
    over a byte string is then the same for all forms by induction. *)
 EXTENDS Naturals, Sequences, Bitwise
+LOCAL INSTANCE SequencesExt          \* only FoldLeft is used; LOCAL keeps its other names (Inverse, ...) out of extending modules
 
 POLY == 33800      \* 0x8408
 
@@ -25,9 +26,8 @@ StepShift(s, b) ==
         b2 == b1 ^^ ((b1 * 16) % 256)
     IN  ((s \div 256) ^^ (b2 * 256)) ^^ ((b2 * 8) ^^ (b2 \div 16))
 
-RECURSIVE CrcFrom(_, _, _)
-CrcFrom(data, i, s) == IF i > Len(data) THEN s ELSE CrcFrom(data, i + 1, StepBit(s, data[i]))
-Crc(data, start) == CrcFrom(data, 1, start)
+\* fold of the step over the byte string (FoldLeft is evaluated iteratively by TLC: no recursion depth limit)
+Crc(data, start) == FoldLeft(LAMBDA s, b : StepBit(s, b), start, data)
 CrcDefault(data) == Crc(data, 65535)
 CrcBytes(data) == LET c == CrcDefault(data) IN <<c \div 256, c % 256>>   \* big-endian, as stored in auth blocks
 =============================================================================
